@@ -47,7 +47,7 @@ Definition enc (o : outcome) : Z * Z * list Z :=
 
 def plan(ctx):
     if ctx.tier == "quick":
-        return 9, 8
+        return 12, 8
     return 120, 14
 
 
